@@ -36,6 +36,7 @@ vars == <<kind, c, i, zDur, adds, received, accounted, win, outs, nz>>
 
 EwmaCases == [samples : Seqs([n : SampleN, dur : SampleDur], MaxSamples) \ {<<>>}]
 SizeCases == [base : {1000, 1024}, e : 0..5, m : {1, 2, 999}, d : {-1, 0, 1}]
+             \cup [base : {1000, 1024}, e : {9}, m : {1}, d : {-1000, -1, 0}]    \* e = 9 stands for the top of the range: MaxInt64 + d
 TimeCases == [h : {0, 1, 23, 59}, m : {0, 1, 59}, s : {0, 1, 59}, ms : {0, 999}]
 PctCases  == [total : {1, 3, 7, 100, 120}, cur : 0..8]
 (* an operation on the window: 0 reads it (a frame is drawn), v > 0 adds the sample v *)
